@@ -598,7 +598,7 @@ class Batch:
         self.items = []        # (program index, label, expr)
         self.programs = []
 
-    def add(self, stream, circuit, cfg, fams, nontrivial, ref=None, sample=None):
+    def add(self, stream, circuit, cfg, fams, nontrivial, ref=None, sample=None, case=None, count=True):
         ctx, cirq = self.ctx, self.cirq
         cj = cfg_json(cfg)
         key = [cirq.to_json(circuit), cj]
@@ -637,15 +637,16 @@ class Batch:
         for name in sorted(set(P.undefined)):
             ctx.disagree(f'correspondence:{stream}', f'{name} is not in stdgates.inc', f'undefined-gate:{cfg["version"]}:{name}',
                          f'{desc}: gate {name!r} is not defined by the standard library of OpenQASM {cfg["version"]}', dict(kind=stream, **rep))
-        ctx.count(stream, key, nontrivial, sample=sample if sample is not None else
-                  dict(circuit=' '.join(repr(circuit).split())[:300], config=cj, instructions=len(P.stmts), checks=[l for l, _ in exprs]))
+        if count:
+            ctx.count(stream, key, nontrivial, sample=sample if sample is not None else
+                      dict(circuit=' '.join(repr(circuit).split())[:300], config=cj, instructions=len(P.stmts), checks=[l for l, _ in exprs]))
         idx = len(self.programs)
-        self.programs.append(dict(stream=stream, desc=desc, rep=rep, fams=fams, circuit=circuit, cfg=cfg, P=P, text=text, tol=info['tol']))
+        self.programs.append(dict(stream=stream, desc=desc, rep=rep, fams=fams, circuit=circuit, cfg=cfg, P=P, text=text, tol=info['tol'], case=case))
         for label, expr in exprs:
             self.items.append((idx, label, expr))
         return 'ok'
 
-    def evaluate(self, tag):
+    def failing(self, tag):
         ctx = self.ctx
         SH = 40
         shards = []
@@ -659,9 +660,46 @@ class Batch:
             for idx in coq.parse_nat_list(coq.parse_evals(out)[0]):
                 pi, label, _ = self.items[si * SH + idx]
                 failing.setdefault(pi, []).append(label)
+        return failing
+
+    def shrink(self, failing):
+        """For a failing unitary comparison of a generated case: which single operation, exported alone on the same
+        qubits in the same order, already fails?  Returns {program index: tag}."""
+        sub = Batch(self.ctx, self.cirq)
+        owner = []
+        for pi, labels in failing.items():
+            pr = self.programs[pi]
+            if pr['case'] is None or 'unitary' not in labels or len(pr['case'].ops) < 2:
+                continue
+            case = pr['case']
+            for o in case.ops:
+                one = circuits.Case(case.dims, [o], ['E'])
+                circuit, qs = one.circuit(self.cirq)
+                cfg = dict(pr['cfg'])
+                order_idx = [q.x for q in cfg['order']]
+                st = sub.add('shrink', circuit, cfg, [o.g.fam], True, ref=(one.coq_shape(order_idx), one.coq_ops(order_idx)), case=one, count=False)
+                if st == 'ok':
+                    owner.append((len(sub.programs) - 1, pi, o))
+        if not sub.items:
+            return {}
+        bad = sub.failing('shrink')
+        tags = {}
+        for si, pi, o in owner:
+            if si in bad and pi not in tags:
+                tags[pi] = 'unitary:op:' + op_tag(self.cirq, o, sub.programs[si])
+                self.programs[pi]['min'] = sub.programs[si]
+        return tags
+
+    def evaluate(self, tag):
+        ctx = self.ctx
+        failing = self.failing(tag)
+        shrunk = self.shrink(failing)
         for pi, labels in sorted(failing.items()):
             pr = self.programs[pi]
             diag = diagnose(self.cirq, pr['circuit'], pr['cfg']['order'], pr['P'], pr['text'])
+            if pr['case'] is not None and len(pr['case'].ops) == 1 and 'unitary' in labels:
+                diag = diag or 'unitary:op:' + op_tag(self.cirq, pr['case'].ops[0], pr)
+            diag = diag or shrunk.get(pi)
             sig = diag or (labels[0].split('[')[0] + ':' + '+'.join(pr['fams']))
             what = {'unitary': f'the parsed text does not perform the circuit unitary up to global phase within {float.fromhex(pr["tol"].strip("()")):.3g}',
                     'distribution': 'the parsed program and the circuit have different outcome distributions / per-outcome states',
@@ -670,9 +708,29 @@ class Batch:
                     'conditions:count': 'the number of conditional statements differs from the number of classically controlled operations',
                     'layout:qubits': 'the declared quantum register does not have one qubit per circuit qubit'}
             detail = '; '.join(what.get(l, f'{l} of the text differs from the circuit condition (as a predicate on the measured bits)') for l in labels)
-            ctx.disagree(f'correspondence:{pr["stream"]}', f'{labels}', sig, f'{pr["desc"]}: {detail}' + (f' [{diag}]' if diag else ''),
-                         dict(kind=pr['stream'], failing=labels, **pr['rep']))
+            m = pr.get('min')
+            rep = dict(pr['rep'])
+            desc = pr['desc']
+            if m is not None:       # report the minimised input
+                rep = dict(m['rep'], shrunk_from=pr['rep']['circuit_json'])
+                desc = m['desc']
+            ctx.disagree(f'correspondence:{pr["stream"]}', f'{labels}', sig, f'{desc}: {detail}' + (f' [{diag}]' if diag else ''),
+                         dict(kind=pr['stream'], failing=labels, **rep))
         return failing
+
+
+def op_tag(cirq, o, pr):
+    """family of the failing single operation, refined by the feature of the input that selects a code path"""
+    g = o.g
+    tag = g.fam
+    if g.fam == 'Diagonal' and len(g.shape) == 3 and g.p.get('fixed'):
+        qs = {q.x: q for q in pr['circuit'].all_qubits()}
+        a, b, c = [cirq.LineQubit(w) for w in o.wires]
+        if not b.is_adjacent(a) or not b.is_adjacent(c):
+            tag += ':ThreeQubitDiagonalGate:non-adjacent-qubits'
+    if g.fam == 'Ctrl':
+        tag += ':' + g.p['sub'].fam
+    return tag
 
 
 QASM_FAMILIES = ['XPow', 'YPow', 'ZPow', 'HPow', 'CZPow', 'CXPow', 'CYPow', 'SwapPow', 'ISwapPow', 'XXPow', 'YYPow', 'ZZPow',
@@ -716,7 +774,7 @@ def unitary_stream(ctx, cirq, b, n):
         cfg = draw_config(rng, qs)
         order_idx = [q.x for q in cfg['order']]
         fams = sorted({o.g.fam for o in case.ops})
-        b.add('unitary', circuit, cfg, fams, case.nontrivial(), ref=(case.coq_shape(order_idx), case.coq_ops(order_idx)))
+        b.add('unitary', circuit, cfg, fams, case.nontrivial(), ref=(case.coq_shape(order_idx), case.coq_ops(order_idx)), case=case)
 
 
 def rules_stream(ctx, cirq, b, k):
@@ -760,7 +818,7 @@ def rules_stream(ctx, cirq, b, k):
         cfg = draw_config(rng, qs)
         cfg['precision'] = 10
         order_idx = [q.x for q in cfg['order']]
-        b.add('rules', circuit, cfg, [g.fam], True, ref=(case.coq_shape(order_idx), case.coq_ops(order_idx)))
+        b.add('rules', circuit, cfg, [g.fam], True, ref=(case.coq_shape(order_idx), case.coq_ops(order_idx)), case=case)
 
 
 def directed_circuits(cirq):
